@@ -237,8 +237,13 @@ def r14b(R):
     mq = A.func(MACHINE, 'Machine._moveq')
     mcfg = A.cfg(mq)
     t = [n for n in mcfg.nodes if n.kind == 'cond' and 'Register.UNIT_MODE' in norm(n.ast)]
-    ok = bool(t) and any('Machine._switch_unit_mode' in A.callee_names(mq, c)
-                         for x, lab in t[0].succs if lab is True for c in x.calls())
+    ok = False
+    if t and isinstance(t[0].ast, ast.Compare):
+        is_label = isinstance(t[0].ast.ops[0], (ast.Is, ast.Eq))
+        sw = A.calls_nodes(mq, 'Machine._switch_unit_mode')
+        starts = [x for x, lab in t[0].succs if lab is is_label]
+        ok = bool(sw) and mcfg.find_path(
+            starts, lambda n: n in (mcfg.exit, mcfg.raise_exit), avoid=sw) is None
     R.check(mq, 'MOVEQ into UNIT_MODE goes through _switch_unit_mode', ok,
             'a units statement stores the mode without re-expressing the '
             'registers')
